@@ -89,7 +89,7 @@ fn registry(id: &str) -> Option<PropDef> {
         },
         "C08" => PropDef {
             level: "exploration",
-            subs: vec![random::<c08::Pairs>()],
+            subs: vec![random::<c08::Pairs>(), random::<c08::PairsLarge>()],
             assumptions: vec![
                 "dbf tables without deleted rows; rows physically present are counted from the dbf header's header-length / record-length fields",
                 "known finding K1 (row rejected by dbase after the shape was written) ends the checking of a history at that call",
